@@ -24,6 +24,8 @@ POLICIES = ["passive", "close@connected", "close@ready", "close@message", "close
 OPTION_SETS = [
     {},
     {"poll": 1.0, "ping_rate": 2.0, "ping_timeout": 3.0, "close_timeout": 2.0, "auto_pong": False},
+    # the ping timeout is the only timer left (close timeout disabled by 0 - documented like None)
+    {"poll": 1.0, "ping_rate": 2.0, "ping_timeout": 3.0, "close_timeout": 0},
 ]
 
 MESSAGE_LIKE = {"text", "binary", "ping", "pong", "poll", "closing", "closed"}
@@ -108,7 +110,7 @@ def timer_must_end(tr, copts):
         return False
     if copts.get("ping_timeout"):
         return True
-    if copts.get("close_timeout", 30.0):
+    if copts.get("close_timeout", 30.0):    # None and 0 both disable it
         for e in tr.sim.log:
             if e[0] in ("send", "send_fail") and not e[2].startswith(b"GET "):
                 frames, _ = wire.decode_frames(e[2])
